@@ -223,15 +223,15 @@ struct Interp {
 			auto tag = [&](char const* name) { t << " ." << name; };
 			switch(code) {
 			case OP_INDEX: if constexpr(D >= 2) { if(d0.size >= 1) {
-				long o = null_root ? 0 : a % d0.size;
+				long o = (null_root && !known_mode()) ? 0 : a % d0.size;
 				m2.offset += o*d0.stride; m2.d.erase(m2.d.begin());
 				tag("["); t << (d0.first + o) << "]";
 				apply<true>(v, cat, m2, "operator[]", [&](auto&& x) -> decltype(auto) { return std::forward<decltype(x)>(x)[d0.first + o]; }); return;
 			}} break;
 			case OP_SLICED: case OP_RANGE: case OP_BRACE: case OP_BLOCKED: {
 				if(code == OP_BLOCKED && !Based) { break; }
-				long lo = null_root ? 0 : a % (d0.size + 1), hi = lo + b % (d0.size - lo + 1);
-				if(keep && d0.size >= 1 && !null_root) { lo = a % d0.size; hi = lo + 1 + b % (d0.size - lo); }
+				long lo = (null_root && !known_mode()) ? 0 : a % (d0.size + 1), hi = lo + b % (d0.size - lo + 1);
+				if(keep && d0.size >= 1 && !(null_root && !known_mode())) { lo = a % d0.size; hi = lo + 1 + b % (d0.size - lo); }
 				m2.offset += lo*d0.stride; m2.d[0].size = hi - lo;
 				if(m.empty()) { m2.offset = m.offset; }
 				long f = d0.first + lo, l = d0.first + hi;
@@ -256,8 +256,8 @@ struct Interp {
 				break;
 			}
 			case OP_SLICED3: {
-				long lo = null_root ? 0 : a % (d0.size + 1), hi = lo + b % (d0.size - lo + 1);
-				if(keep && d0.size >= 1 && !null_root) { lo = a % d0.size; hi = lo + 1 + b % (d0.size - lo); }
+				long lo = (null_root && !known_mode()) ? 0 : a % (d0.size + 1), hi = lo + b % (d0.size - lo + 1);
+				if(keep && d0.size >= 1 && !(null_root && !known_mode())) { lo = a % d0.size; hi = lo + 1 + b % (d0.size - lo); }
 				long n = hi - lo; if(n < 1) { break; }
 				auto dv = divisors(n); long s = dv[(c / 3U) % dv.size()];
 				if(Based && (d0.first % s) != 0) { break; }
@@ -276,8 +276,8 @@ struct Interp {
 				apply<(D == 1) || VP_CONST_STRIDED>(v, cat, m2, "strided", [&](auto&& x) -> decltype(auto) { return std::forward<decltype(x)>(x).strided(s); }); return;
 			} else { ctx.count("ops_excluded_const_overload"); } break;
 			case OP_DROPPED: if constexpr((D == 1) || VP_CONST_DROPPED || !is_const_v) {
-				long n = null_root ? 0 : a % (d0.size + 1);
-				if(keep && d0.size >= 1 && !null_root) { n = a % d0.size; }
+				long n = (null_root && !known_mode()) ? 0 : a % (d0.size + 1);
+				if(keep && d0.size >= 1 && !(null_root && !known_mode())) { n = a % d0.size; }
 				m2.d[0].size = d0.size - n; if(!m.empty()) { m2.offset += n*d0.stride; }
 				tag("dropped("); t << n << ')';
 				apply<(D == 1) || VP_CONST_DROPPED>(v, cat, m2, "dropped", [&](auto&& x) -> decltype(auto) { return std::forward<decltype(x)>(x).dropped(n); }); return;
